@@ -1,20 +1,25 @@
 #!/bin/bash
-# usage: run_seeds.sh [-o resultname] CNN...   -> copies agent demos to /verif/seeded and runs seedtest
-out=result.json
-if [ "$1" = "-o" ]; then out=$2; shift 2; fi
+# usage: run_seeds.sh [-s srcbase] [-p nameprefix] [-o resultname] CNN...
+#   copies the agents' deliveries <srcbase>/CNN/_demo/<name>/ to /verif/seeded/CNN-<prefix><name>/ and runs bin/seedtest on each
+# VERIF_ROOT: the /verif copy whose checks are run (default: the one this script lives in); results always go to /verif/seeded
+root=${VERIF_ROOT:-$(dirname $(dirname $(readlink -f $0)))}
+src=/tmp/agents; pre=""; out=result.json
+while [ "${1#-}" != "$1" ]; do
+  case "$1" in -s) src=$2;; -p) pre=$2;; -o) out=$2;; esac; shift 2
+done
 for id in "$@"; do
-  for d in /tmp/agents/$id/_demo/*/; do
+  for d in $src/$id/_demo/*/; do
     [ -f "$d/patch.diff" ] || continue
     name=$(basename $d)
-    dest=/verif/seeded/$id-$name
+    dest=/verif/seeded/$id-$pre$name
     if [ -f $dest/$out ]; then continue; fi
     mkdir -p $dest
     [ -f $dest/patch.diff ] || cp -a $d/. $dest/
     rm -rf $dest/__pycache__ $dest/*.sqfs $dest/work $dest/tmp* 2>/dev/null
-    echo "=== $id $name"
+    echo "=== $id $pre$name"
     extra=""
     [ "$out" != result.json ] && extra="--no-confirm"
-    timeout 3000 /verif/bin/seedtest $dest $id $extra > $dest/$out 2>$dest/seedtest.err
-    tail -c 700 $dest/$out; echo
+    timeout 3000 $root/bin/seedtest $dest $id $extra > $dest/$out 2>$dest/seedtest.err
+    tail -c 500 $dest/$out; echo
   done
 done
